@@ -7,57 +7,61 @@ from ..srcmodel import unparse, norm, walk_no_nested, calls_in
 from .common import cfg_of, facts_at, find_stmt_node, is_method_call, get_kw, recv_of, name_defs
 
 
-def memo_discipline(repo, run, rule):
-    fi = repo.func('EvalContext.evaluate_node')
-    g = cfg_of(fi)
-    evals = g.find_calls(lambda c: is_method_call(c, member='on_evaluate', ayns=True))
-    if len(evals) != 1:
-        raise AnalysisError('evaluate_node: expected exactly one <node>.ayns.on_evaluate call, found %d' % len(evals))
-    node, call = evals[0]
-    x = unparse(recv_of(call))
-    facts = facts_at(g, node)
-    miss = ('id(%s) in self._eval_cache_id' % x, False)
-    if miss in facts:
-        run.ok(rule, (fi.file, call.lineno, fi.qualname), unparse(call), 'reached only on a miss of the identity memo (%s)' % miss[0])
-    else:
-        run.violation(rule, fi, unparse(call), 'a node is evaluated on a path where membership of id(%s) in the identity memo has not been tested false: a memoised node (e.g. one whose result is None / falsy) is evaluated again' % x, node=call)
-    # the hit branch returns the memoised value
-    hits = [s for s in walk_no_nested(fi.node) if isinstance(s, ast.If) and norm(s.test) == miss[0]]
-    if hits and not (isinstance(hits[0].body[-1], ast.Return) and norm(hits[0].body[-1].value) == 'self._eval_cache_id[id(%s)]' % x):
-        run.violation(rule, fi, norm(hits[0])[:120], 'a memo hit does not return the memoised object itself', node=hits[0])
-    elif hits:
-        run.ok(rule, (fi.file, hits[0].lineno, fi.qualname), norm(hits[0])[:100], 'memo hit returns the stored object')
-    # store on every normal path after the evaluation
-    var = None
-    if node.kind == 'stmt' and isinstance(node.ast, ast.Assign) and isinstance(node.ast.targets[0], ast.Name):
-        var = node.ast.targets[0].id
-    stores = []
-    for n in g.stmt_nodes():
-        s = n.ast
-        if n.kind == 'stmt' and isinstance(s, ast.Assign) and isinstance(s.targets[0], ast.Subscript) and norm(s.targets[0].value) == 'self._eval_cache_id':
-            stores.append((n, s))
-    good = [(n, s) for n, s in stores if norm(s.targets[0].slice) in ('utils.persistent_id(%s)' % x, 'persistent_id(%s)' % x) and norm(s.value) == var]
-    for n, s in stores:
-        if (n, s) not in good:
-            k = norm(s.targets[0].slice)
-            why = 'keyed by %s: a plain id() does not keep the node alive, ids can be recycled within a build' % k if k == 'id(%s)' % x else 'key %s / value %s do not memoise the evaluated node under its identity' % (k, norm(s.value))
-            run.violation(rule, fi, norm(s), why, node=s)
-    good_ids = {n.id for n, _ in good}
+MNI = {'on_evaluate', 'get_or_set', 'persistent_id', 'get_list_path'}
 
-    def transfer(n, facts_):
-        if n.id == node.id:
-            facts_ = facts_ | {'pending'}
-        if n.id in good_ids:
-            facts_ = facts_ - {'pending'}
-        return facts_
-    IN, reached = cfgmod.forward_may(g, transfer)
-    if 'pending' in IN[g.exit.id]:
-        run.violation(rule, fi, 'store into _eval_cache_id after %s' % unparse(call), 'there is a normal path from the evaluation of a node to the return on which the result is not stored in the identity memo: a second consumer evaluates the node again', node=call)
-    elif good:
-        run.ok(rule, (fi.file, good[0][1].lineno, fi.qualname), norm(good[0][1]), 'on every normal path after the evaluation; persistent_id keeps the node alive')
-    rets = [s for s in walk_no_nested(fi.node) if isinstance(s, ast.Return) and s.value is not None and s.lineno > call.lineno]
-    if not rets or any(norm(r.value) != var for r in rets):
-        run.violation(rule, fi, 'return after evaluation', 'evaluate_node does not return the object it memoised (%s)' % [norm(r) for r in rets])
+
+def memo_discipline(repo, run, rule):
+    """identity memo of EvalContext.evaluate_node, on traces: a node is evaluated only on a miss; a hit returns the stored
+    object; after an evaluation every completing path stores the result under persistent_id(node) and returns it"""
+    from . import tr
+    fi = repo.func('EvalContext.evaluate_node')
+    paths = tr.paths_of(repo, fi, no_inline=MNI, follow_exceptions=False)
+    n_eval = 0
+    verdicts = {}
+
+    def v(kind, ev, construct, why):
+        verdicts.setdefault((kind, why), (ev, construct))
+    for p in paths:
+        evals = [e for e in p.events if e.kind == 'call' and e.attr == 'on_evaluate' and e.recv is not None and e.recv.text.endswith('.ayns')]
+        if len(evals) > 1:
+            raise AnalysisError('evaluate_node: more than one <node>.ayns.on_evaluate call on a path')
+        hits = [t for t, pol in p.facts if pol and t.startswith('id(') and t.endswith(') in self._eval_cache_id')]
+        if hits and not evals and p.status == 'return':
+            x = hits[0][3:-len(') in self._eval_cache_id')]
+            if p.ret is None or p.ret.text != 'self._eval_cache_id[id(%s)]' % x:
+                v('bad', tr.final_event(p), 'memo hit', 'a memo hit does not return the memoised object itself (returns %s)' % (p.ret.text[:50] if p.ret is not None else None))
+            else:
+                v('ok', tr.final_event(p), 'memo hit', 'memo hit returns the stored object')
+        if not evals:
+            continue
+        n_eval += 1
+        e = evals[0]
+        x = e.recv.text[:-5]
+        miss = ('id(%s) in self._eval_cache_id' % x, False)
+        if miss in e.facts:
+            v('ok', e, e.callee, 'reached only on a miss of the identity memo (%s)' % miss[0])
+        else:
+            v('bad', e, e.callee, 'a node is evaluated on a path where membership of id(%s) in the identity memo has not been tested false: a memoised node (e.g. one whose result is None / falsy) is evaluated again' % x)
+        if p.status != 'return':
+            continue
+        R = e.result.text
+        i = tr.index_of(p, e)
+        stores = [s_ for s_ in p.events[i:] if s_.kind == 'store' and s_.target.startswith('self._eval_cache_id[')]
+        good = [s_ for s_ in stores if s_.target in ('self._eval_cache_id[utils.persistent_id(%s)]' % x, 'self._eval_cache_id[persistent_id(%s)]' % x) and s_.value is not None and s_.value.text == R]
+        for s_ in stores:
+            if s_ not in good:
+                k = s_.target[len('self._eval_cache_id['):-1]
+                v('bad', s_, s_.target, 'keyed by %s: a plain id() does not keep the node alive, ids can be recycled within a build' % k if k == 'id(%s)' % x else 'key %s / value %s do not memoise the evaluated node under its identity' % (k[:40], s_.value.text[:40] if s_.value is not None else None))
+        if not good:
+            v('bad', e, 'store into _eval_cache_id after ' + e.callee, 'there is a normal path from the evaluation of a node to the return on which the result is not stored in the identity memo: a second consumer evaluates the node again [%s]' % tr.describe(p, 5))
+        else:
+            v('ok', good[0], good[0].target, 'on every normal path after the evaluation; persistent_id keeps the node alive')
+        if p.ret is None or p.ret.text != R:
+            v('bad', tr.final_event(p), 'return after evaluation', 'evaluate_node does not return the object it memoised (%s)' % (p.ret.text[:50] if p.ret is not None else None))
+    if not n_eval:
+        raise AnalysisError('evaluate_node: <node>.ayns.on_evaluate call not found')
+    for (kind, why), (ev, construct) in verdicts.items():
+        (run.ok if kind == 'ok' else run.violation)(rule, tr.where(fi, ev), construct[:100], why)
 
 
 def who_may_evaluate(repo, run, rule):
@@ -85,25 +89,45 @@ def who_may_evaluate(repo, run, rule):
 
 
 def per_build_caches(repo, run, rule):
+    """every cache the context creates is emptied before a tree is evaluated and on every way out (also when the evaluation raises)"""
+    from . import tr
     fi = repo.func('EvalContext.evaluate')
     caches = set()
     init = repo.func('EvalContext.__init__')
-    for s in walk_no_nested(init.node):
-        if isinstance(s, ast.Assign) and isinstance(s.targets[0], ast.Attribute) and s.targets[0].attr.startswith('_eval_cache'):
-            caches.add(s.targets[0].attr)
+    for p in tr.paths_of(repo, init, follow_exceptions=False):
+        for e in p.events:
+            if e.kind == 'store' and e.target.startswith('self._eval_cache'):
+                caches.add(e.target[5:])
     if len(caches) < 2:
         raise AnalysisError('EvalContext caches not found')
-    call = [c for c in calls_in(fi.node) if is_method_call(c, recv='self', member='evaluate_node')]
-    tries = [s for s in fi.node.body if isinstance(s, ast.Try)]
-    if len(call) != 1 or len(tries) != 1:
-        raise AnalysisError('EvalContext.evaluate: try/finally around evaluate_node not recognised')
-    before = {norm(c.func.value)[5:] for s in fi.node.body if s.lineno < tries[0].lineno for c in calls_in(s) if isinstance(c.func, ast.Attribute) and c.func.attr == 'clear'}
-    after = {norm(c.func.value)[5:] for s in tries[0].finalbody for c in calls_in(s) if isinstance(c.func, ast.Attribute) and c.func.attr == 'clear'}
+    paths = tr.paths_of(repo, fi, no_inline={'evaluate_node'}, follow_exceptions=True)
+    n = 0
+    missing_before, missing_after = set(), set()
+    for p in paths:
+        evs = [i for i, e in enumerate(p.events) if tr.is_call(e, attr='evaluate_node', recv='self')]
+        if len(evs) != 1:
+            if evs:
+                raise AnalysisError('EvalContext.evaluate: more than one evaluate_node call')
+            continue
+        n += 1
+
+        def cleared(evts):
+            out = set()
+            for e in evts:
+                if e.kind == 'call' and e.attr == 'clear' and e.recv is not None and e.recv.text.startswith('self.'):
+                    out.add(e.recv.text[5:])
+                if e.kind == 'store' and e.target.startswith('self._eval_cache') and e.value is not None and e.value.text in ('{}', 'dict()'):
+                    out.add(e.target[5:])
+            return out
+        missing_before |= caches - cleared(p.events[:evs[0]])
+        missing_after |= caches - cleared(p.events[evs[0]:])
+    if not n:
+        raise AnalysisError('EvalContext.evaluate: evaluate_node call not recognised')
     for cache in sorted(caches):
-        if cache not in before or cache not in after:
-            run.violation(rule, fi, 'self.%s.clear()' % cache, 'cache %s is not cleared %s the evaluation of a tree: values of one build leak into the next' % (cache, 'before' if cache not in before else 'after (finally)'))
+        if cache in missing_before or cache in missing_after:
+            run.violation(rule, fi, 'self.%s.clear()' % cache, 'cache %s is not cleared %s the evaluation of a tree: values of one build leak into the next' % (cache, 'before' if cache in missing_before else 'after (finally)'))
         else:
-            run.ok(rule, fi, 'self.%s cleared before evaluating and in finally' % cache)
+            run.ok(rule, fi, 'self.%s cleared before evaluating and on every way out (%d paths incl. exceptional)' % (cache, n))
 
 
 def evaluate_a_copy(repo, run, rule):
